@@ -659,11 +659,21 @@ def mkey(i):
     return f"k{i:02d}"
 
 
+def mval(v):
+    """value code of the cases -> Python value stored in the tree: -1 is None (a tombstone value)."""
+    return None if v == -1 else v
+
+
+def mcode(v):
+    return -1 if v is None else v
+
+
 def gen_merkle(rng):
     nkeys = rng.choice([1, 2, 3, 5, 8, 10])
+    rv = lambda: rng.choice([-1, 0, 0, 1, 1, 2])  # noqa: E731
 
     def rand_map():
-        return {k: rng.randrange(3) for k in rng.sample(range(nkeys), rng.randint(0, nkeys))}
+        return {k: rv() for k in rng.sample(range(nkeys), rng.randint(0, nkeys))}
     a = rand_map()
     mode = rng.random()
     if mode < 0.25:
@@ -674,11 +684,11 @@ def gen_merkle(rng):
             k = rng.randrange(nkeys)
             r = rng.random()
             if r < 0.4:
-                b[k] = rng.randrange(3)
+                b[k] = rv()
             elif r < 0.7:
                 b.pop(k, None)
             else:
-                b[k] = b.get(k, 0) + 1
+                b[k] = max(b.get(k, 0), 0) + 1
     else:
         b = rand_map()
     ops = [["build", 0, sorted(a.items(), key=lambda kv: rng.random())],
@@ -687,7 +697,7 @@ def gen_merkle(rng):
         r = rng.random()
         t = rng.randrange(2)
         if r < 0.4:
-            ops.append(["update", t, rng.randrange(nkeys), rng.randrange(3)])
+            ops.append(["update", t, rng.randrange(nkeys), rv()])
         elif r < 0.65:
             ops.append(["remove", t, rng.randrange(nkeys)])
         else:
@@ -705,10 +715,10 @@ def impl_merkle(c):
     for o in c["ops"]:
         ranges, same = [], False
         if o[0] == "build":
-            trees[o[1]] = MerkleTree.build({mkey(k): v for k, v in o[2]})
+            trees[o[1]] = MerkleTree.build({mkey(k): mval(v) for k, v in o[2]})
             ref[o[1]] = {k: v for k, v in o[2]}
         elif o[0] == "update":
-            trees[o[1]].update(mkey(o[2]), o[3])
+            trees[o[1]].update(mkey(o[2]), mval(o[3]))
             ref[o[1]][o[2]] = o[3]
         elif o[0] == "remove":
             existed = trees[o[1]].remove(mkey(o[2]))
@@ -725,9 +735,9 @@ def impl_merkle(c):
                         raise AssertionError("KeyRange.contains")
         t = trees[o[1]]
         if t.size != len(ref[o[1]]) or t.keys() != [mkey(k) for k in sorted(ref[o[1]])] or any(
-                t.get(mkey(k)) != ref[o[1]].get(k) for k in range(12)):
+                t.get(mkey(k)) != (mval(ref[o[1]][k]) if k in ref[o[1]] else None) for k in range(12)):
             raise AssertionError("size/keys/get disagree with the map")
-        obs.append([[[ki(k), v] for k, v in t.items()], ranges, same])
+        obs.append([[[ki(k), mcode(v)] for k, v in t.items()], ranges, same])
     return dict(obs=obs)
 
 
